@@ -35,6 +35,22 @@ theorem C31_aliases :
       B6.Model.FeatureID.aliases.map (fun a => (a.pre, a.ns, a.type.toNat, (C31_codecFuns a.codec).1, (C31_codecFuns a.codec).2)) := by
   decide
 
+/-- `NewFeatureTypeFromProto`, case by case (`ftypeFromProto`; shared with C19's wire model) -/
+theorem C31_featureTypeFromProto :
+    featureTypeFromProto.all (fun e => (ftypeFromProto e.1).map FType.toNat == some e.2) = true ∧
+    featureTypeFromProto.map (·.1) = [0, 1, 2, 3, 4, 5, 6] := by decide
+
+/-- … and any number outside the enum is `FeatureTypeInvalid` (the wildcard arm of `ftypeFromProto`) -/
+theorem C31_featureTypeFromProtoDefault :
+    (ftypeFromProto 7).map FType.toNat = some featureTypeFromProtoDefault ∧
+    ∀ n, (ftypeFromProto (n + 7)).map FType.toNat = some featureTypeFromProtoDefault := ⟨rfl, fun _ => rfl⟩
+
+/-- `NewProtoFromFeatureType`, case by case (`FType.toProto`) -/
+theorem C31_featureTypeToProto :
+    featureTypeToProto =
+      ([.point, .path, .area, .relation, .collection, .expression, .invalid] : List FType).map (fun t => (t.toNat, t.toProto)) := by
+  decide
+
 theorem C31_nsOSMNode : B6.Gen.Facts.C31.nsOSMNode = B6.Model.FeatureID.nsOSMNode := by decide
 theorem C31_nsOSMWay : B6.Gen.Facts.C31.nsOSMWay = B6.Model.FeatureID.nsOSMWay := by decide
 theorem C31_nsOSMRelation : B6.Gen.Facts.C31.nsOSMRelation = B6.Model.FeatureID.nsOSMRelation := by decide
